@@ -215,6 +215,11 @@ let run (toks : string list) : string =
                 | Hap.RChars (st, es) -> Printf.sprintf "%d:%s" (int_of_n st) (entries_str es)
                 | Hap.RRefused470 -> "470" | r -> resp_tlv r))
           end
+        | ["RACE"; a; b; _n] ->
+          (* concurrent reads on two connections: nothing changes, every interleaving answers alike *)
+          if not (alive a) || not (alive b) then emit "RACE=noconn" else
+            emit ("RACE=" ^ (match req a Hap.EAccessories, req b (Hap.ECharsGet ([], true)) with
+                | Hap.RAccessories _, Hap.RChars _ -> "ok" | _ -> "refused"))
         | ["A"; c] ->
           if not (alive c) then emit "A=noconn" else
             emit ("A=" ^ (match req c Hap.EAccessories with
